@@ -370,7 +370,7 @@ func main() {
 	dir, seed, thorough := cases.Args()
 	r := cq.NewRNG(seed)
 	s := cases.New("C14", dir, "LW.Corr.C14",
-		"14 bands (x repeater x dwell) x histories of AddChannel/Disable/Enable (random incl. invalid indices; sub-band patterns for the 72/96-channel plans) x device channel lists (all, none, equal, standard, random, sparse, single, unsorted with duplicates, one-flip, out-of-range and negative); plan + apply run on the implementation; planned payloads through LinkADRReqPayload.MarshalBinary/UnmarshalBinary; apply on arbitrary payload lists; sessions: one long-lived band object with planner calls interleaved with AddChannel/Disable/Enable (plan - AddChannel - plan - Disable - plan ...), every plan compared with the model after that prefix of calls and with a control object that reaches the same state without earlier queries. device lists holding entries outside the plan (next index, next block, 96..127, 128..255, 256+, 4096, negative, every 16th, 64-bit extremes) on top of the network's own set and of random sets, evaluated with the full property. Non-trivial = the plan is non-empty (CPlan), any CEnc, a non-empty payload list (CApply); distinct = distinct printed case")
+		"14 bands (x repeater x dwell) x histories of AddChannel/Disable/Enable (random incl. invalid indices; sub-band patterns for the 72/96-channel plans) x device channel lists (all, none, equal, standard, random, sparse, single, unsorted with duplicates, one-flip, out-of-range and negative); plan + apply run on the implementation; planned payloads through LinkADRReqPayload.MarshalBinary/UnmarshalBinary; apply on arbitrary payload lists; sessions: one long-lived band object with planner calls interleaved with AddChannel/Disable/Enable (plan - AddChannel - plan - Disable - plan ...), every plan compared with the model after that prefix of calls and with a control object that reaches the same state without earlier queries. device lists holding entries outside the plan (next index, next block, 96..127, 128..255, 256+, 4096, negative, every 16th, 64-bit extremes) on top of the network's own set and of random sets, evaluated with the full property. extra channels identical to a default channel (frequency and data-rate range) of every extra-channel band, planned for devices without the new index. Non-trivial = the plan is non-empty (CPlan), any CEnc, a non-empty payload list (CApply); distinct = distinct printed case")
 	g := &gen{s: s, r: r, seenEnc: map[string]bool{}}
 	cfgs := chanobs.Configs()
 	byName := func(n band.Name) chanobs.Config {
@@ -484,6 +484,29 @@ func main() {
 					}
 				}
 			}
+		}
+		// ---- an extra channel identical to a default channel of the band (same frequency
+		// and data-rate range - a common configuration): it is appended at a new index and
+		// is custom like every appended channel, so a device that does not have the new
+		// index must not get it switched on and nothing is planned for a matching device ----
+		for _, name := range chanobs.Names {
+			cfg := cfgs[byName(name).Index+g.r.Intn(4)]
+			if !chanobs.SupportsExtra(cfg) {
+				continue
+			}
+			std := chanobs.Uplinks(cfg.New())
+			var all []chanobs.Op
+			for i, c := range std {
+				ops := []chanobs.Op{chanobs.Add(c.Freq, c.MinDR, c.MaxDR)}
+				all = append(all, ops[0])
+				g.scenario(fmt.Sprintf("dup-default%d-dev-standard", i), cfg, ops, seq(0, len(std)))
+				g.scenario(fmt.Sprintf("dup-default%d-dev-all", i), cfg, ops, seq(0, len(std)+1))
+				g.scenario(fmt.Sprintf("dup-default%d-dev-none", i), cfg, ops, nil)
+			}
+			all = append(all, chanobs.Add(std[0].Freq, std[0].MinDR, std[0].MaxDR), chanobs.Disable(0))
+			g.scenario("dup-defaults-dev-standard", cfg, all, seq(0, len(std)))
+			g.scenario("dup-defaults-dev-random", cfg, all, subset(g.r, seq(0, 2*len(std)+1), 1, 2))
+			g.session("dup-defaults", cfg, len(std)+1, all[:len(std)+1], nil)
 		}
 		g.r = r0
 	}
